@@ -696,7 +696,7 @@ def handle_known_findings(ctx, known):
 def server_scenarios(ctx):
     s = vlib.seed()
     q = ctx.quick
-    sc = [("v4", ["--scenario", "server", "--seed", str(s), "--nq", "500" if q else "2500", "--fat", "190"]),
+    sc = [("v4", ["--scenario", "server", "--seed", str(s), "--nq", "500" if q else "2500", "--fat", "190", "--renew", "520"]),
           ("v6", ["--scenario", "server", "--seed", str(s + 1), "--fam", "6", "--nq", "300" if q else "1500", "--fat", "70"]),
           ("ro", ["--scenario", "server", "--seed", str(s + 2), "--ro", "1", "--nq", "150" if q else "600"])]
     if not q:
